@@ -87,8 +87,14 @@ def run(tier, seed):
     for k, (tag, c) in enumerate(items):
         split = bool(c['split'])
         scale = c['DEN'] * c['VS']
-        for solver in (None, 'SCIPY', 'CLARABEL'):
-            sel = dict(check='nodal_prices', family=tag, solver=str(solver), route='split' if split else 'mono')
+        # reporting history: the tables are read from the 1st, 2nd and 3rd report made for the SAME result object (with / without the
+        # input prices attached) -- every report must carry valid prices, whatever was reported before
+        for solver, nrep in ((None, 1), ('SCIPY', 2), ('CLARABEL', 3), ('SCIPY', 3), (None, 2)):
+            if nrep > 1 and solver != 'SCIPY' and (k + seed) % 3 and tier == 'quick':
+                continue
+            if (solver, nrep) in ((None, 2), ('SCIPY', 3)) and (k + seed) % 2:
+                continue
+            sel = dict(check='nodal_prices', family=tag, solver=str(solver), route='split' if split else 'mono', report=nrep)
             real = R.Real(c, struct=c['struct']) if tag == 'structured' else R.Real(c)
             try:
                 with quiet():
@@ -97,7 +103,8 @@ def run(tier, seed):
                     if isinstance(res, str):
                         chk.cnt['optimize_' + res.replace(' ', '_')] += 1
                         continue
-                    out = eao.io.extract_output(real.portfolio, op, res)
+                    for rep in range(nrep):
+                        out = eao.io.extract_output(real.portfolio, op, res, real.prices) if rep % 2 else eao.io.extract_output(real.portfolio, op, res)
             except Exception as e:
                 chk.violation(dict(sel, check='pipeline_raises', error=type(e).__name__), 'pipeline raised %s: %s' % (type(e).__name__, e), dict(cfg=c))
                 continue
